@@ -685,6 +685,33 @@ fn run(case: &Case, out: &mut Out) {
                 }
                 out.obs(&[got.map(|g| tn(st.hidx(&g))).unwrap_or(ts("none"))]);
             }
+            "bb" => {
+                // black-box tier (shared with C16): a real worker; only the C12 verdicts are kept here:
+                // what the session code does to the backend it was given (refusals recorded, tries bounded
+                // and monotone, is_down <=> tries >= max, success resets, a revived backend is used again,
+                // connection / request counts of every backend back to zero when traffic has ended)
+                let exe = std::env::current_exe().unwrap().parent().unwrap().join("c16bb");
+                match std::process::Command::new(exe).args(a.iter().map(|t| t.to_string())).output() {
+                    Ok(o) => {
+                        let text = String::from_utf8_lossy(&o.stdout).to_string();
+                        for line in text.lines() {
+                            if let Some(v) = line.strip_prefix("viol ") {
+                                let (c, t) = v.split_once(' ').unwrap_or((v, ""));
+                                if c.starts_with("c12-") || c == "backend-count-not-zero" {
+                                    out.viol(c, t);
+                                }
+                            } else if line.starts_with("note ") {
+                                out.note(&format!("bb: {}", &line[5..]));
+                            }
+                        }
+                        if !text.contains("obs done") {
+                            out.viol("bb-crashed", "the black-box run did not finish (worker thread panicked?)");
+                        }
+                    }
+                    Err(e) => out.note(&format!("invalid-case: cannot run c16bb: {e}")),
+                }
+                out.obs(&[]);
+            }
             "dump" => {
                 let mut o = vec![];
                 for h in &st.handles {
